@@ -28,6 +28,11 @@ func ExtractCharClassRanges(re *syntax.Regexp) [][2]byte {
 		return nil
 	}
 
+	// CharClassSearcher scans the longest run; a lazy [a-z]+? must match one byte.
+	if re.Flags&syntax.NonGreedy != 0 {
+		return nil
+	}
+
 	if len(re.Sub) != 1 {
 		return nil
 	}
